@@ -13,6 +13,12 @@ Definition kfks (fks : list (nat * nat * nat)) : list (nat * nat * nat) :=
   map (fun e => (qcode 0 (fst (fst e)), snd (fst e), qcode 0 (snd e))) fks.
 Definition kcat (tabs : list nat) (fks : list (nat * nat * nat)) : cat := mkCat (ktabs tabs) (kfks fks).
 
+(* tables of two schemas: [tq s n i] = table n of schema s, object i *)
+Definition tq (s n i : nat) : table := mkT n s i.
+Definition qcat (tabs : list (nat * nat)) (fks : list ((nat * nat) * nat * (nat * nat))) : cat :=
+  mkCat (map (fun t => qcode (fst t) (snd t)) tabs)
+        (map (fun e => (qcode (fst (fst (fst e))) (snd (fst (fst e))), snd (fst e), qcode (fst (snd e)) (snd (snd e)))) fks).
+
 Ltac explode :=
   repeat match goal with
   | H : False |- _ => destruct H
@@ -25,7 +31,7 @@ Ltac explode :=
   end.
 
 (* [qn] of a concrete table is a numeral *)
-Ltac norm := cbv [qn qcode cur des t_name t_schema Nat.add Nat.mul] in *.
+Ltac norm := cbv [qn qcode cur des tq t_name t_schema Nat.add Nat.mul] in *.
 
 Ltac wf_tac :=
   constructor; simpl;
@@ -150,3 +156,35 @@ Lemma ch_tiebreak : detach_spec ch_cs [AddTable (des 2) []; DropTable (cur 3) []
     AddTable (des 1) [mkFK 22 (des 1) (des 2)];
     ModifyTable (des 0) [ModifyFK (mkFK 5 (cur 0) (cur 3)) (mkFK 5 (des 0) (des 1))]].
 Proof. apply DetachCycles_spec. vm_compute. reflexivity. Qed.
+
+(** * Two schemas with same-named tables: s1.t1 <-> s1.t2 are dropped (a 2-cycle of drops) while the
+      namesake s2.t1 is altered EARLIER in the list (new key to the created s2.t2).  By name alone the
+      altered table would be "dropped" (isDropped says so) and "t1", "t2" would be one node each. *)
+Definition tw_cs : list change :=
+  [ ModifyTable (tq 2 1 5) [AddFK (mkFK 23 (tq 2 1 5) (tq 2 2 7))];
+    AddTable (tq 2 2 7) [];
+    DropTable (tq 1 1 0) [mkFK 1 (tq 1 1 0) (tq 1 2 2)];
+    DropTable (tq 1 2 2) [mkFK 0 (tq 1 2 2) (tq 1 1 0)] ].
+Definition tw_cat : cat := qcat [(1, 1); (1, 2); (2, 1)] [((1, 1), 1, (1, 2)); ((1, 2), 0, (1, 1))].
+Definition tw_plan : list change :=
+  [ AddTable (tq 2 2 7) [];
+    ModifyTable (tq 1 1 0) [DropFK (mkFK 1 (tq 1 1 0) (tq 1 2 2))];
+    ModifyTable (tq 1 2 2) [DropFK (mkFK 0 (tq 1 2 2) (tq 1 1 0))];
+    ModifyTable (tq 2 1 5) [AddFK (mkFK 23 (tq 2 1 5) (tq 2 2 7))];
+    DropTable (tq 1 1 0) []; DropTable (tq 1 2 2) [] ].
+
+Lemma tw_wf : WF tw_cs.
+Proof. wf_tac. Qed.
+Lemma tw_cons : consistent tw_cat tw_cs.
+Proof.
+  cons_tac;
+  first
+  [ exists (DropTable (tq 1 1 0) [mkFK 1 (tq 1 1 0) (tq 1 2 2)]); simpl; split; [auto|]; split; [reflexivity|];
+    eexists; split; [left; reflexivity|split; reflexivity]
+  | exists (DropTable (tq 1 2 2) [mkFK 0 (tq 1 2 2) (tq 1 1 0)]); simpl; split; [auto|]; split; [reflexivity|];
+    eexists; split; [left; reflexivity|split; reflexivity] ].
+Qed.
+Lemma tw_runs : sortMap tw_cs = SMCycle /\ plan tw_cs = POk tw_plan /\
+  replay tw_plan tw_cat = Some (qcat [(2, 2); (2, 1)] [((2, 1), 23, (2, 2))]) /\
+  isDropped tw_cs (tq 2 1 5) = true /\ same_table (tq 2 1 5) (tq 1 1 0) = false.
+Proof. repeat split; vm_compute; reflexivity. Qed.
